@@ -561,7 +561,7 @@ Qed.
 
 (* Capacity returns: unless the pool was shut down, when the slot is empty or holds a go-away connection one
    CheckAndInit whose dial succeeds installs a fresh Connected connection, on which NewStream is granted (if the
-   Requests limit admits one more). *)
+   Requests limit accepts one more). *)
 Theorem mx_capacity_returns : forall k ops, mk_sw k = mx_sw_fixed -> let p := mrun k ops minit in
   mshut p = false ->
   (mslot p = SEmpty \/ exists c, mslot p = SClient c /\ mc_state (mcl p c) = st_goaway) ->
